@@ -370,6 +370,14 @@ func (s *Service) createCertManager(options ServiceOptions) (CertManager, error)
 		return nil, nil
 	}
 
+	// A service that does not serve the root path only inherits its TLS
+	// settings from the root path service of its host, which is the one that
+	// provides the certificates. It needs no certificate manager of its own
+	// (and its hosts may be wildcards that automatic TLS could not handle).
+	if len(options.PathPrefixes) > 0 && !slices.Contains(options.PathPrefixes, rootPath) {
+		return nil, nil
+	}
+
 	if options.TLSCertificatePath != "" && options.TLSPrivateKeyPath != "" {
 		return NewStaticCertManager(options.TLSCertificatePath, options.TLSPrivateKeyPath)
 	}
